@@ -126,7 +126,7 @@ CapUnit(i) ==
 TagNames == <<"don't", "tab\tkey", "i,j", "e\\f", "a\"b", "c`d", "g\nh", "ok key", "k:l", "a=b", "cpu%", "100%s", "%d{x}[1]">>
 TagUnit(i, req) ==
   LET n == TagNames[i] IN
-  [prop |-> "C14", fam |-> "tagchars",
+  [prop |-> "C14", fam |-> "tagchars", tagok |-> i >= 8,
    schema |-> Obj(<<[k |-> n, s |-> Int_], [k |-> "z", s |-> Int_]>>, IF req THEN <<n>> ELSE <<>>), defs |-> <<>>,
    docs |-> << JObj(<<KV(n, JNum(4)), KV("z", JNum(8))>>), JObj(<<KV(n, JNum(12))>>) >>,
    \* (a newline is legal inside the raw string that holds the tag, not inside the interpreted raw["..."] of a required check)
